@@ -23,9 +23,11 @@ pub use vyp_types::*;
 pub use gt_types::*;
 pub use gt_types_impl::*;
 
-pub fn parse_systems(doc: &roxmltree::Document) -> (Vec<String>, Vec<VypSystem>) {
+pub fn parse_systems(
+    doc: &roxmltree::Document,
+) -> Result<(Vec<String>, Vec<VypSystem>), anyhow::Error> {
     let (factores_correccion_sistemas, sistemas) = vyp_sys::parse_systems(doc);
-    let gt_systems = gt_sys::parse_systems(doc);
+    let gt_systems = gt_sys::parse_systems(doc)?;
     // let horarios = todo!();
 
     // La salida estándar está reservada a los programas (hulc2model escribe en ella el modelo JSON)
@@ -33,5 +35,5 @@ pub fn parse_systems(doc: &roxmltree::Document) -> (Vec<String>, Vec<VypSystem>)
     log::debug!("Sistemas VyP:\n{:#?}", sistemas);
 
     // TODO: completar sistemas GT
-    (factores_correccion_sistemas, sistemas)
+    Ok((factores_correccion_sistemas, sistemas))
 }
